@@ -76,6 +76,9 @@ func (b *progBuilder) object(pt *progTree, n *lnode, owner string, p []string) *
 	props := map[string]*schema.PropertySchema{}
 	for _, k := range n.Props {
 		props[k.Name] = schema.NewPropertySchema(b.build(pt, k.N, owner, with(p, k.Name)), nil, false, nil, nil, nil, nil, nil)
+		if n.isDisabled(k.Name) {
+			props[k.Name].Disable("harness")
+		}
 	}
 	return schema.NewObjectSchema(n.ID, props)
 }
@@ -694,6 +697,9 @@ func (bg *nsBehGen) object(id string, depth int, ids []string) *hx.Ty {
 		if !hasRef(pt) && r.Intn(3) == 0 {
 			p.Required = true
 		}
+		if i > 0 && !p.Required && hasRef(pt) && r.Intn(6) == 0 {
+			p.Disabled = true
+		}
 		o.Props = append(o.Props, hx.NamedProp{Name: name, P: p})
 	}
 	return o
@@ -973,7 +979,45 @@ func groupNSBehave(s *sink, g *hx.Gen) {
 				}
 			}
 		}
+		// values that SET disabled properties (made with the twin schema in which nothing is disabled)
+		compareDisabled := func(impl schema.Type, model *hx.Ty, what string) {
+			if !hasDisabled(model) {
+				return
+			}
+			twin := enableAll(model)
+			for _, b := range []int{2, 5, 8} {
+				vE := deepValue(g, twin, nil, b)
+				if vE == nil || !canBuild(vE) {
+					continue
+				}
+				run := func(op string, val *hx.Val, goVal any, useGo bool) {
+					xa, i1, _ := s.emitAgainst(op, model, impl, val, goVal, useGo, note+":"+what+":"+op+"-disabled-set")
+					xb := hx.Guard(func() hx.Result {
+						arg := goVal
+						if !useGo {
+							arg = val.ToGo()
+						}
+						rr, _ := hx.RunOpRaw(op, model.Build(), arg)
+						return rr
+					})
+					if !sameResult(xa, xb) {
+						s.finding(Finding{Prop: "C14", What: op + " of " + what + " on a value that sets a disabled property differs from the lexically inlined tree (" + note + ")", Cases: []int{i1}, Schema: model, Input: val, Detail: []string{xa.JSON(), xb.JSON()}})
+					}
+					s.stats["nsbehave:disabled-set:"+op+":"+xa.R]++
+				}
+				run("C", vE, nil, false)
+				var outE any
+				rE := hx.Guard(func() hx.Result { rr, o := hx.RunOpRaw("U", twin.Build(), vE.ToGo()); outE = o; return rr })
+				if rE.R != "ok" {
+					continue
+				}
+				run("V", hx.Enc(outE), outE, true)
+				run("S", hx.Enc(outE), outE, true)
+			}
+		}
 		compare(impl, model, "the tree under test")
+		compareDisabled(impl, model, "the tree under test")
+		compareDisabled(w.x, inlX, "foreign scope X")
 		// the foreign scope, used on its own, must still be what it was
 		compare(w.x, inlX, "foreign scope X")
 	}
